@@ -33,8 +33,9 @@ class LineInterrupt:
     With k=None it only counts (used to measure an op's length N before placing a fault in [1, N]).
     """
 
-    def __init__(self, k=None, record=None):
+    def __init__(self, k=None, record=None, max_count=None):
         self.k = k
+        self.max_count = max_count  # counting mode: stop tracing after this many events (bounds the cost of long templates)
         self.record = record  # optional set collecting (relative file, line) of every pyrepseq line executed
         self.prefix = os.path.join(repo_root(), "pyrepseq") + os.sep
         self.count = 0
@@ -48,9 +49,14 @@ class LineInterrupt:
 
     def _local(self, frame, event, arg):
         if event == "line":
+            if self.max_count is not None and self.count >= self.max_count:
+                return None
             self.count += 1
             if self.record is not None:
                 self.record.add((frame.f_code.co_filename[len(self.prefix):], frame.f_lineno))
+            if self.max_count is not None and self.count >= self.max_count:
+                sys.settrace(None)
+                return None
             if self.k is not None and self.count == self.k and not self.fired:
                 self.fired = True
                 self.where = (os.path.relpath(frame.f_code.co_filename, self.prefix), frame.f_lineno)
